@@ -16,7 +16,9 @@ from xdsl.pattern_rewriter import (
 
 from snaxc.accelerators import AccContext
 from snaxc.accelerators.accelerator import Accelerator
+from snaxc.accelerators.rocc import RoCCAccelerator
 from snaxc.dialects import accfg
+from snaxc.inference.trace_acc_state import infer_state_of
 
 
 @dataclass
@@ -36,6 +38,36 @@ class LowerAccfgBasePattern(RewritePattern, ABC):
 
     def __hash__(self):
         return id(self)
+
+
+class CompleteRoCCSetupPairs(LowerAccfgBasePattern):
+    """
+    A RoCC instruction writes both of its operands. Let every setup of a RoCC accelerator name
+    both halves of the instructions it touches while the setups before it, and the ones that
+    reach it around a loop, are all still there to look the missing half up: the lowering below
+    walks backwards and erases them on its way.
+    """
+
+    @op_type_rewrite_pattern
+    def match_and_rewrite(self, op: accfg.SetupOp, rewriter: PatternRewriter, /):
+        _, acc_info = self.get_acc(op.get_acc_name())
+        if not isinstance(acc_info, RoCCAccelerator) or op.in_state is None:
+            return
+        fields = dict(op.iter_params())
+        halves = (name[:-4] + half for name in fields for half in (".rs1", ".rs2"))
+        missing = [name for name in dict.fromkeys(halves) if name not in fields]
+        if not missing:
+            return
+        # (a half that cannot be traced is an error here as it is in the lowering)
+        prev_state = infer_state_of(op.in_state)
+        rewriter.replace_matched_op(
+            accfg.SetupOp(
+                [*fields.values(), *(prev_state[name] for name in missing)],
+                [*fields.keys(), *missing],
+                op.accelerator,
+                op.in_state,
+            )
+        )
 
 
 class LowerAccfgSetupToCsr(LowerAccfgBasePattern):
@@ -185,8 +217,11 @@ class ConvertAccfgToCsrPass(ModulePass):
     name = "convert-accfg-to-csr"
 
     def apply(self, ctx: Context, op: builtin.ModuleOp) -> None:
-        # first lower all accfg ops and erase old SSA values
         assert isinstance(ctx, AccContext)
+        # complete the setups of RoCC accelerators while the state can still be traced
+        PatternRewriteWalker(CompleteRoCCSetupPairs(op, ctx)).rewrite_module(op)
+
+        # then lower all accfg ops and erase old SSA values
         PatternRewriteWalker(
             GreedyRewritePatternApplier(
                 [
